@@ -255,11 +255,12 @@ struct Runner
     ll ncompute;
     std::vector<Args> argsets;
     Real last_tol;
-    ll last_pair_ops;   // operator applications of the last "init(); compute()" pair (true count)
+    ll last_pair_ops;   // applications (attempts) of the fault-target operator during the last "init(); compute()" pair
     ll ops_at_init;
+    OpStats* fst;       // statistics of the operator that faults are injected into (A side by default, B side with ftarget=b)
 
     Runner(const Desc& d_, const Ctx& cx_, OpStats& st_, TraceSink& sink_) :
-        d(d_), cx(cx_), st(st_), sink(sink_), lanczos(false), meas(1), measconv(true), cur_sv(-1), cur_args(-1), ncompute(0), last_tol(0), last_pair_ops(0), ops_at_init(0)
+        d(d_), cx(cx_), st(st_), sink(sink_), lanczos(false), meas(1), measconv(true), cur_sv(-1), cur_args(-1), ncompute(0), last_tol(0), last_pair_ops(0), ops_at_init(0), fst(&st_)
     {}
 
     const Base& base() const { return static_cast<const Base&>(*eigs); }
@@ -326,7 +327,7 @@ struct Runner
         auto X = eigs->eigenvectors();
         l.i("nval", (ll) ev.size()).i("ncol", (ll) X.cols()).i("nrow", (ll) X.rows());
         l.i("nops", (ll) eigs->num_operations()).i("niter", (ll) eigs->num_iterations());
-        l.i("t", st.count).i("probe", st.probe).i("bad", st.bad).i("ft", st.thrown);
+        l.i("t", st.count).i("probe", st.probe).i("bad", st.bad).i("ft", st.thrown + (fst != &st ? fst->thrown : 0));
         l.i("fin", (all_finite(ev) && all_finite(X)) ? 1 : 0);
         key_ranks(ev, l);
         std::vector<ll> cd;
@@ -516,7 +517,7 @@ struct Runner
             {
                 st.count = 0;
                 st.probe = 0;
-                ops_at_init = st.total;
+                ops_at_init = fst->total;
                 if (tok == "I")
                     eigs->init();
                 else
@@ -556,7 +557,7 @@ struct Runner
             {
                 r = (ll) eigs->compute((SortRule) a.sel, (Eigen::Index) a.maxit, last_tol, (SortRule) a.sort);
                 ok = true;
-                last_pair_ops = st.total - ops_at_init;
+                last_pair_ops = fst->total - ops_at_init;
                 ret_line("compute", r);
             }
             catch (const std::exception& e)
@@ -572,9 +573,9 @@ struct Runner
         {
             // arm a fault at the k-th application from now
             ll k = atoll(tok.c_str() + 1);
-            st.fault_at = k > 0 ? st.total + k : 0;
-            st.fault_tag = k;
-            st.thrown_since_arm = 0;
+            fst->fault_at = k > 0 ? fst->total + k : 0;
+            fst->fault_tag = k;
+            fst->thrown_since_arm = 0;
             Line l("Arm");
             l.i("k", k);
             out().put(l);
@@ -586,13 +587,15 @@ struct Runner
             {
                 sink.enabled = false;
                 ll save_count = st.count, save_total = st.total, save_probe = st.probe;
-                ll save_fault = st.fault_at;
+                ll save_fault = st.fault_at, save_ffault = fst->fault_at;
                 st.fault_at = 0;
+                fst->fault_at = 0;
                 ll dgt = op_probe();
                 st.count = save_count;
                 st.total = save_total;
                 st.probe = save_probe;
                 st.fault_at = save_fault;
+                fst->fault_at = save_ffault;
                 sink.enabled = true;
                 Line l("OpProbe");
                 l.i("dg", dgt);
@@ -613,14 +616,14 @@ struct Runner
             {
                 step("F" + std::to_string(k), sp);
                 step("I", sp);
-                if (eigs && st.thrown_since_arm == 0)
+                if (eigs && fst->thrown_since_arm == 0)
                     step("C0", sp);
                 if (tok == "A2")
                 {
                     ll k2 = 1 + (k * 7) % K;
                     step("F" + std::to_string(k2), sp);
                     step("I", sp);
-                    if (st.thrown_since_arm == 0)
+                    if (fst->thrown_since_arm == 0)
                         step("C0", sp);
                 }
                 step("F0", sp);
